@@ -77,11 +77,33 @@ def tag_of(pair):
     return d.value + i.value
 
 
+def gen_sync_body(rnd):
+    """a valid sync section with several tempo lines early in the chart (so that the events of the other
+    sections fall into different segments): exact repeats of the previous tempo, changes by one or two
+    raw units (0.001 BPM - seeded C01e drops such a line from the map handed to the other sections),
+    ordinary changes; tempo changes one tick apart; anchors and junk interleaved"""
+    out = ["  0 = TS 4"]
+    raw = rnd.choice([120000, 119998, 60000, 90000, 147253, 200000, 64001])
+    tick = 0
+    out.append(f"  0 = B {raw}")
+    for _ in range(rnd.choice([1, 2, 3, 4, 6])):
+        tick += rnd.choice([1, 2, 5, 48, 96, 192])
+        raw = max(1, raw + rnd.choice([0, 1, 1, -1, 2, -2, 1000, -5000, 30000]))
+        out.append(f"  {tick} = B {raw}")
+        if rnd.random() < 0.2:
+            out.append(f"  {tick} = A {rnd.randrange(0, 5000000)}")
+        if rnd.random() < 0.15:
+            out.append(f"  {tick} = TS {rnd.choice([3, 4, 6, 7])} {rnd.choice([2, 3])}")
+        if rnd.random() < 0.1:
+            out.append("not a sync line")
+    return out
+
+
 def gen_sections(rnd, allow_bad=True):
     """(sections list, want_tracks) - a well-framed file with distinct tags"""
     pairs = all_pairs()
     secs = []
-    required = [("Song", rnd.choice(SONG)), ("SyncTrack", rnd.choice(SYNC)), ("Events", rnd.choice(EVENTS))]
+    required = [("Song", rnd.choice(SONG)), ("SyncTrack", rnd.choice(SYNC) if rnd.random() < 0.5 else gen_sync_body(rnd)), ("Events", rnd.choice(EVENTS))]
     missing = None
     if rnd.random() < 0.12:
         missing = rnd.randrange(3)
